@@ -356,6 +356,21 @@ Theorem C11_one_helper_impl_per_member : forall fuel blocks gm out,
 Proof. exact one_helper_impl_per_member. Qed.
 Print Assumptions C11_one_helper_impl_per_member.
 
+(* non-vacuity: on the example invocation the search succeeds, the generator succeeds, and the
+   families have members *)
+Example C11_rows_nonvacuous :
+  match search 20 ex_blocks with
+  | Some gm =>
+      match gen_helper_impls ex_blocks gm with
+      | Some out => map (@List.length term) out = map (fun e => List.length (snd (snd e))) gm /\
+                    existsb (fun e => Nat.ltb 1 (List.length (snd (snd e)))) gm = true
+      | None => False
+      end
+  | None => False
+  end.
+Proof. vm_compute. split; reflexivity. Qed.
+Print Assumptions C11_rows_nonvacuous.
+
 
 (* ===================================================================================== *)
 (* C05 -- block order independence (meaning of the expansion)                              *)
